@@ -226,7 +226,7 @@ def case_term(T, case):
 # expected observables from the model's encoded action
 
 ERR_CLASSES = {0: {"EBinaryOp"}, 1: {"EUnimpl"}, 2: {"EThrown(O)"}, 3: {"EThrown(s\"boom\")", "EArgs"},
-               4: {"EType"}, 5: {"EString", "ENotFound", "EIndex"}}
+               4: {"EType"}, 5: {"EString", "ENotFound", "EIndex", "EAssert"}}   # 5: any ErrorKind::StringError
 
 
 def expected_trace(T, case, events):
@@ -417,7 +417,7 @@ def gen_cases(tier, seed, T):
                     fix = lambda k: (k[0], k[1]) if k[0] == "plain" else \
                         ((k[0], frozenset(k[1]), k[2]) if k[0] == "map" else (k[0], frozenset(k[1])))
                     add("corpus", tuple(c["op"]), fix(c["l"]), fix(c["r"]),
-                        {(s, k): b for s, k, b in c["oracle"]})
+                        {(s, k): b for s, k, b in c["oracle"]}, ctx=c.get("ctx"))
 
     quick = tier == "quick"
     for op in ops:
@@ -1051,7 +1051,8 @@ def run(tier, seed):
                     terms.append(t)
                 case_slot.append(slot[t])
             n_terms = len(terms)
-            raw = C.coq_eval(UNIT, header, terms + [access_term(c) for c in acases], tag="c17", per_shard=500)
+            allterms = terms + [access_term(c) for c in acases]
+            raw = C.coq_eval(UNIT, header, allterms, tag="c17", per_shard=max(300, -(-len(allterms) // C.NPROC)))
             vals = [None if k is None else raw[k] for k in case_slot] + raw[n_terms:]
             chk.coverage["distinct_model_terms"] = n_terms
         except RuntimeError as e:
@@ -1063,7 +1064,7 @@ def run(tier, seed):
             for i, (c, r, v) in enumerate(zip(cases, impl_ops, vals[:len(cases)])):
                 if "panic" in r or v is None:
                     continue
-                (events, outcome), leftover = v
+                events, outcome, leftover = v      # Coq prints ((a, b), c) as (a, b, c)
                 et = expected_full_trace(T, c, events, outcome)
                 if leftover != 0 or r.get("trace") != et or not full_result_matches(T, c, events, outcome, r.get("result", "")):
                     disagreements.append((i, et, outcome))
